@@ -230,7 +230,7 @@ def execute(scn, keep_log=False, hook=None):
                 stats['reactive_frames'] += 1
                 last_reactive[0] = sim.now
                 bus.send_sync('X', r['id'], True, bytes.fromhex(r['d']), fd)
-    bus.observers.append(on_stack_tx)
+    bus.post_hooks.append(on_stack_tx)
     base = sim.now
     for m in scn.get('own', []):
         def own_send(m=m):
